@@ -648,6 +648,13 @@ fn one_run(root: u64, i: u64, corpus: &Corpus, enumerate: bool, want_sample: boo
         bump(&mut res.probes, "corpus_scenarios");
     }
     let reference = run_scenario(&sc, &SchedSpec::never(), seed);
+    if !use_corpus {
+        for (op, out) in sc.ops.iter().zip(reference.outs.iter()) {
+            if matches!(op.req, Req::Eval { .. } | Req::Top { .. } | Req::Call { .. }) {
+                bump(&mut res.probes, &format!("generated_request_outcome:{}", out.kind_name()));
+            }
+        }
+    }
     res.steps += reference.steps;
     if let Some((inv, class, detail)) = reference.failures.first() {
         let f = Failure { invariant: inv.clone(), class: format!("ref:{class}"), detail: format!("(no collections scheduled) {detail}"), observed: Json::str(detail), expected: Json::str("invariant holds") };
